@@ -142,3 +142,35 @@ def sorted_before_dedup(fn_name_re):
             out.append(Result("inconclusive", "no dedup call found in functions matching /%s/" % fn_name_re))
         return out
     return run
+
+
+def variant_index(relpath, enum, variant):
+    """Declaration index of `variant` in `enum` (= its MIR discriminant unless explicit discriminants are given; callers
+    use it only for field-less enums without explicit values).  None when not found."""
+    import os
+    import re
+    from . import mir as _M
+    from . import overlay as _ov
+    for root in ([_M.SOURCE_ROOT] if _M.SOURCE_ROOT else []) + [_ov.REPO]:
+        path = os.path.join(root, "engine", "src", relpath)
+        if not os.path.exists(path):
+            continue
+        txt = open(path).read()
+        m = re.search(r"\benum %s\b[^{;]*\{" % re.escape(enum), txt)
+        if not m:
+            return None
+        depth, i, body = 1, m.end(), []
+        while i < len(txt) and depth:
+            c = txt[i]
+            depth += c == "{"
+            depth -= c == "}"
+            body.append(c)
+            i += 1
+        body = re.sub(r"//[^\n]*", "", "".join(body))
+        body = re.sub(r"#\[[^\]]*\]", "", body)
+        if "=" in body:
+            return None  # explicit discriminants: not handled
+        names = [x.strip().split("(")[0].split("{")[0].strip() for x in body.rstrip("}").split(",")]
+        names = [n for n in names if re.match(r"^[A-Z]\w*$", n)]
+        return names.index(variant) if variant in names else None
+    return None
